@@ -214,8 +214,13 @@ func TestVerifC36FileHistories(t *testing.T) {
 	// first (levels 0 and 1), then a leaf selector follows whose value 0 ends the
 	// execution without doing anything; only then are the operations executed.
 	firstOps := ops[1:]
+	// quick tier: all sequences of length <= 2, and those of length 3 whose first
+	// two operations create the two names (the states in which export/import
+	// across names, foreign-password exports and the restore path are reachable);
+	// thorough: all sequences up to the depth.
+	restrictThird := mc.EnvInt("VERIF_C36_RESTRICT", mc.Pick(1, 0)) == 1
 	mc.Run(t, mc.Config{ID: "C36", Name: "C36-file-histories", MaxDev: -1, Params: map[string]interface{}{
-		"names": names, "passwords": []string{`""`, `"p"`}, "depth": depth, "ops_per_step": len(ops),
+		"names": names, "passwords": []string{`""`, `"p"`}, "depth": depth, "ops_per_step": len(ops), "third_op_only_after_two_creates": restrictThird,
 		"alphabet": "stop | Key(n,p) | Transfer = ExportKey(src,psrc) then ImportKey(dst,pdst,export) | ImportPrivateKey(n,p,fresh key) (thorough)"}},
 		func(x *mc.X) {
 			planned := []c36Op{firstOps[x.Choose(len(firstOps))], ops[x.Choose(len(ops))]}
@@ -259,7 +264,12 @@ func TestVerifC36FileHistories(t *testing.T) {
 				k, created, err := s.Key(names[n], pws[e.pw])
 				x.Check(err == nil && !created && c36SameKey(k, e.key), "stored-key-differs", "%s: Key(%q,%q) = created %v, err %v, same key %v", when, names[n], pws[e.pw], created, err, err == nil && c36SameKey(k, e.key))
 			}
+			creates := 0
 			for step := 0; step < depth; step++ {
+				if restrictThird && step == 2 && creates != 2 {
+					// quick tier: a third operation only after the two names were created
+					return
+				}
 				var op c36Op
 				if step < len(planned) {
 					op = planned[step]
@@ -288,6 +298,7 @@ func TestVerifC36FileHistories(t *testing.T) {
 						}
 						model[op.n] = &c36Entry{key: k, pw: op.p, id: nextID}
 						nextID++
+						creates++
 						if len(model) == 2 {
 							x.Tag("two-names-stored")
 						}
